@@ -617,7 +617,7 @@ class Message:
         if message.channelid == 0:
             gateway._strconfig = strconfig
         else:
-            gateway._channelfactory.new(message.channelid)._strconfig = strconfig
+            gateway._channelfactory._local_reconfigure(message.channelid, strconfig)
 
     RECONFIGURE = 1
     _types[RECONFIGURE] = ("RECONFIGURE", _reconfigure)
@@ -1028,6 +1028,9 @@ class ChannelFactory:
         self._callbacks: dict[
             int, tuple[Callable[[Any], Any], object, tuple[bool, bool]]
         ] = {}
+        # Channel ID => strconfig set by the other side before the channel
+        # object exists here (it arrives later, inside an item)
+        self._strconfigs: dict[int, tuple[bool, bool]] = {}
         self._writelock = gateway.execmodel.Lock()
         self.gateway = gateway
         self.count = startcount
@@ -1046,6 +1049,9 @@ class ChannelFactory:
                 channel = self._channels[id]
             except KeyError:
                 channel = self._channels[id] = Channel(self.gateway, id)
+                strconfig = self._strconfigs.pop(id, None)
+                if strconfig is not None:
+                    channel._strconfig = strconfig
             return channel
 
     def channels(self) -> list[Channel]:
@@ -1056,6 +1062,7 @@ class ChannelFactory:
     #
     def _no_longer_opened(self, id: int) -> None:
         self._channels.pop(id, None)
+        self._strconfigs.pop(id, None)
         item = self._callbacks.pop(id, None)
         if item is not None:
             callback, endmarker, _strconfig = item
@@ -1093,6 +1100,18 @@ class ChannelFactory:
             channel._receiveclosed.set()
             if queue is not None:
                 queue.put(ENDMARKER)
+
+    def _local_reconfigure(self, id: int, strconfig: tuple[bool, bool]) -> None:
+        # executes in receiver thread; no Channel object is created here:
+        # letting it go again would close the channel for the other side
+        channel = self._channels.get(id)
+        item = self._callbacks.get(id)
+        if channel is not None:
+            channel._strconfig = strconfig
+        if item is not None:
+            self._callbacks[id] = (item[0], item[1], strconfig)
+        if channel is None and item is None:
+            self._strconfigs[id] = strconfig
 
     def _local_receive(self, id: int, data) -> None:
         # executes in receiver thread
